@@ -14,7 +14,7 @@ const SPEC: Spec = Spec {
     ],
     bounds_quick: "E1 +-Dense(S32,3) and 2^(8k-1), 2^(8k-1)+-1, 2^(8k)-1 for k<=24; Ib bytes {00,01,7f,80,ff}^<=7; Iw u32 {0,1,2^31,2^32-1}^<=7 + long padded slices; IT call sequences up to length 8 on 16 values x 2 iterator kinds",
     bounds_thorough: "E1; Ib length <= 9; Iw length <= 9; IT call sequences up to length 10",
-    hang_secs: 300,
+    hang_secs: 120,
     probes: None,
     max_workers: 16,
 };
